@@ -145,7 +145,6 @@ ATTRS = ["centre", "normalization", "sigma"]
 KINDS_EXTRA = ["const", "const", "const", "gauss", "loguniform", "shared"]
 # class labels (computed from the case alone) of the recorded genuine defects
 CLASS_SENS_ORDER = "sens-prior-id-order!=path-order"
-CLASS_SENS_CENTRES = "sens-perturbed-centres-with-limits"
 CLASS_LABELS = "grid-cell-folder-labels-collide"
 
 
@@ -591,8 +590,7 @@ def oracle_sens_run(c, r):
             e = exp[idx][nm]
             if not close(unhex(r["centres_from"][nm][idx]), (e["lo"] + e["hi"]) / 2, e["w"]):
                 fails.append(("perturbed_physical_centres_list_from(perturb.%s)[%d] = %r, the prior fitted in cell %d is [%r, %r]"
-                              % (nm, idx, unhex(r["centres_from"][nm][idx]), idx, e["lo"], e["hi"]),
-                              [CLASS_SENS_CENTRES] if max(ns) >= 2 or ls < 1 else []))
+                              % (nm, idx, unhex(r["centres_from"][nm][idx]), idx, e["lo"], e["hi"]), []))
                 break
         else:
             continue
@@ -915,6 +913,15 @@ def run(ctx):
         rp = json.load(open(ctx.replay))
         if rp.get("case"):
             cases = [rp["case"]]
+    # pinned corpus (former findings, now repaired in /repo): each must pass the oracle without any failure
+    corpus = {}
+    cdir = os.path.join(common.VERIF, "corpus", "C16")
+    if not ctx.replay and os.path.isdir(cdir):
+        import json
+        for f in sorted(os.listdir(cdir)):
+            if f.endswith(".json"):
+                corpus[len(cases)] = f[:-5]
+                cases.append(json.load(open(os.path.join(cdir, f)))["case"])
     slow = [i for i, c in enumerate(cases) if c["kind"] in ("fit", "sens_run")]
     fast = [i for i, c in enumerate(cases) if c["kind"] not in ("fit", "sens_run")]
     groups = [fast] + [slow[j::6] for j in range(6)]
@@ -940,10 +947,14 @@ def run(ctx):
         ctx.oracle["cases"] += 1
         if "exc" in r:
             ctx.oracle["failures"] += 1
+            if i in corpus:
+                ctx.obligation("regression:" + corpus[i], "regression", False, "implementation raised %s" % r["exc"])
             ctx.failure("oracle", "implementation raised %s: %s" % (r["exc"], r.get("msg")), c, impl=r,
                         classes=[CLASS_LABELS] if c["kind"] == "fit" and labels_collide(c) else [])
             continue
         fails = oracle_all(c, r["ok"])
+        if i in corpus:
+            ctx.obligation("regression:" + corpus[i], "regression", not fails, fails[0][0][:300] if fails else "pinned case passes")
         if fails:
             ctx.oracle["failures"] += 1
         small = {k: v for k, v in r["ok"].items() if len(str(v)) < 1500}
@@ -985,7 +996,9 @@ MANIFEST = {
             "compared bit-for-bit by correspondence only); UniformPrior.value_for is modelled as lo+u*(hi-lo) without its 14-decimal "
             "rounding; the order of the grid dimensions is the library's sort_priors_alphabetically (taken as given); 'other parameters "
             "keep their priors' is checked by the oracle only (object identity, sharing structure), not modelled in Coq; completion orders "
-            "are steered through a permuting job runner, the real process pool runs in two thorough-tier cases only. Three genuine "
-            "defects of the unchanged tree are recorded as known findings with proposed fixes.",
+            "are steered through a permuting job runner, the real process pool runs in two thorough-tier cases only. Two genuine "
+            "defects of the unchanged tree are recorded as known findings with proposed fixes (sensitivity csv/folder labels in attribute order; "
+            "grid cells narrower than 0.005 sharing a folder); the with_limits message defect found here was repaired in d755794 and is pinned "
+            "by corpus/C16 regression obligations.",
     "technique": "machine-checked proof in Coq (translator-regenerated model) + vm_compute correspondence",
 }
